@@ -1,7 +1,7 @@
 /-
   C03 — row decoding follows PostgreSQL's attribute layout rules.
   Property theorems only; helper lemmas are in Proofs/Rows.lean (and Proofs/HeapEnc.lean for the tuple header).
-  The model is the tree after fixes/rows/01..05 (A05, A06, A07, A01, A64).  The scalar decoder `dec`
+  The model is the tree after fixes/rows/01..05 and 09 (A05, A06, A07, A01, A64; A02-inline-compressed).  The scalar decoder `dec`
   (DecodeType) is a parameter: the theorems are about WHICH BYTES each column is decoded from.
 -/
 import PgVerif.Proofs.RowsFile
@@ -16,7 +16,8 @@ the first `natts` attributes are stored, and every scalar decoder `dec`: the col
 yields, in column order, one (name, value) pair per declared column — nil exactly for NULL attributes and for
 the attributes beyond `natts`, and otherwise `dec` (through `varlenaVal`, which only differs on empty
 payloads) applied to exactly the payload bytes of that attribute (nil placeholder for an external pointer,
-the raw stored bytes for an inline-compressed value), whatever precedes it. -/
+the ORIGINAL bytes — what the pglz / LZ4 stream stands for — for an inline-compressed value, fix 09), whatever
+precedes it. -/
 theorem C03_layout (dec : Dec) (cols : List Col) (mcols : List Column) (r : RowV) (hdr : TupleHeader)
     (hm : ColsMatch 0 mcols cols) (hwf : r.WF cols) :
     decodeCols dec (rowTuple hdr cols r) mcols 0 0 = expectedCols (varlenaVal dec) cols r.vals r.natts := by
@@ -110,6 +111,31 @@ theorem C03_file (dec : Dec) (cols : List Col) (mcols : List Column) (bs : List 
   rw [mtuple_formTupleH v.1 cols v.2 hw]
   exact C03_decodeTuple dec cols mcols v.2 _ hm hw hne
 
+/-- **Inline-compressed values (fix 09, former half of finding A02).**  For every value and every valid pglz token list
+(literals and matches of every tag form: lengths 3..273, offsets 1..4095, overlapping copies; at least 4 stream bytes) or
+valid LZ4 block `z` standing for it, laid out as PostgreSQL stores a value compressed in line — 4-byte header
+`(total << 2) | 2`, va_tcinfo (raw size, method in the top two bits), the stream — and followed by anything:
+ReadVarlena returns the ORIGINAL bytes `z.original` and the stored length. -/
+theorem C03_compressed_inline (z : Comp) (rest : Bytes) (hz : z.WF) (hlt : z.stored.length + 4 < 2 ^ 30) :
+    readVarlena (le 4 ((z.stored.length + 4) * 4 + 2) ++ (z.stored ++ rest)) = .ok (some z.original, z.stored.length + 4) :=
+  readVarlena_comp z rest hz hlt
+
+/-- **… in a row.**  DecodeTuple on a row whose first column is stored compressed in line (any schema after it, any values
+in the following columns — further compressed ones included —, any null pattern, any stored attribute count ≥ 1): the
+column gets the decoder applied to the uncompressed value, and the following columns are exactly what `C03_layout` says
+they must be — the reader continues behind the STORED length.  (A compressed value at any other position is covered by
+`C03_layout` / `C03_decodeTuple` / `C03_file` themselves: `Datum.compressed` is one of the forms of `RowV`.) -/
+theorem C03_compressed_row (dec : Dec) (c : Col) (cs : List Col) (mcols : List Column) (z : Comp)
+    (vs : List (Option Datum)) (k infomask : Nat) (hdr : TupleHeader)
+    (hm : ColsMatch 0 mcols (c :: cs)) (hne : mcols ≠ [])
+    (hwf : RowV.WF (c :: cs) { vals := some (.compressed z) :: vs, natts := k + 1, infomask }) :
+    decodeTuple dec (rowTuple hdr (c :: cs) { vals := some (.compressed z) :: vs, natts := k + 1, infomask }) mcols =
+      (do let x ← varlenaVal dec z.original c.typid
+          let rest ← expectedCols (varlenaVal dec) cs vs k
+          pure (some (toRow ((c.name, x) :: rest)))) := by
+  rw [C03_decodeTuple dec (c :: cs) mcols _ hdr hm hwf hne]
+  simp only [expectedCols, expectedVal, Nat.add_sub_cancel, bind_assoc, pure_bind]
+
 /-- **One entry per declared column.**  When the column names are distinct the resulting map has exactly the
 pairs of `C03_layout`, one per declared column. -/
 theorem C03_entries (ps : List (Bytes × GoVal)) (h : (ps.map (·.1)).Nodup) : toRow ps = ps := by
@@ -186,5 +212,23 @@ example : (rowTuple ⟨24, 4, 0x0901, true, true, false, true⟩ exCols exRow).b
 /-- the theorem's right-hand side on this row, with the decoder "length of the payload" -/
 example : expectedCols (varlenaVal fun b _ => pure (.int b.length)) exCols exRow.vals exRow.natts
     = .ok [([97], .int 4), ([98], .nil), ([99], .int 2), ([100], .int 4)] := by rfl
+
+/-- 12 × 'a' in pglz (the shape of the witness of finding A02, 100 × 'a', in small): control byte 02, 'a', one match
+offset 1 length 11 (tag 08 01) overlapping its own output -/
+def exComp : Comp := .pglz [.lit 97, .mat 1 11]
+def exCompCols : List Col := [⟨[98], 25, -1, 4⟩, ⟨[100], 23, 4, 4⟩]
+def exCompRow : RowV := { vals := [some (.compressed exComp), some (.fixed (le 4 333))], natts := 2, infomask := 0x0900 }
+example : exComp.WF ∧ exComp.stored.length + 4 < 2 ^ 30 := by decide
+example : exComp.stored = [12, 0, 0, 0, 2, 97, 8, 1] ∧ exComp.original = List.replicate 12 97 := by decide
+example : exCompRow.WF exCompCols := by decide
+example : ColsMatch 0 [⟨[98], 25, -1, 1, 105⟩, ⟨[100], 23, 4, 2, 105⟩] exCompCols := by
+  simp only [ColsMatch, ColMatch, exCompCols]; decide
+/-- the stored bytes: header 0x32 = (12 << 2) | 2, va_tcinfo 12, the 4 stream bytes, the int4 (already aligned) -/
+example : form exCompCols exCompRow.vals 0 = [0x32, 0, 0, 0, 12, 0, 0, 0, 2, 97, 8, 1, 77, 1, 0, 0] := by decide
+example : readVarlena [0x32, 0, 0, 0, 12, 0, 0, 0, 2, 97, 8, 1, 77, 1, 0, 0] = .ok (some (List.replicate 12 97), 12) := by rfl
+/-- a damaged stream (the match reaches before the start of the output: 11 bytes are missing) is nil, 12 bytes consumed -/
+example : readVarlena [0x32, 0, 0, 0, 12, 0, 0, 0, 2, 97, 8, 9, 77, 1, 0, 0] = .ok (none, 12) := by rfl
+/-- an LZ4 block: literal 'a', match offset 1 length 9, last literals "bc" -/
+example : (Comp.lz4 ⟨[⟨[97], 1, 9⟩], [98, 99]⟩).WF := by decide
 
 end PgVerif.Props.C03
